@@ -231,4 +231,12 @@ def removeIllegal (p : Pos) (k : Sq) (l : List Mv) : List Mv :=
 /-- what the engine treats as the legal moves: `pseudoLegalMoves` followed by `removeIllegal` -/
 def legalMoves (p : Pos) (k : Sq) : List Mv := removeIllegal p k (pseudoLegalMoves p k)
 
+/-- the hypotheses of the generator theorems (`GenWF` in `TexelGenPseudo.lean`) as a Boolean, evaluated by the driver on
+    every tested position: piece codes 0..12, the mover's king on `k` and nowhere else, the en-passant square empty -/
+def genWFb (p : Pos) (k : Sq) : Bool :=
+  (allSq.all fun s => p.b[s] ≤ 12) &&
+  (p.b[k] == (if p.wtm then WKING else BKING)) &&
+  (allSq.all fun s => !(p.b[s] == (if p.wtm then WKING else BKING)) || s == k) &&
+  (match p.ep with | some e => p.b[e] == 0 | none => true)
+
 end Chess.Texel
